@@ -935,7 +935,7 @@ def explore(tier, seed, rng, wd):
         return {(0, True): "qd", (1, True): "dq", (0, False): "cd", (1, False): "dc"}[(pr["side"], pr["generic"])]
 
     rep_pairs = [(a, b) for a in REPS for b in REPS]
-    per_pp = 2 if tier == "quick" else 6
+    per_pp = 2 if tier == "quick" else 4
     pairs = []
     byrp = {(t["rep"], t["n"], t["d"]): t for t in types}
     k = rng.randrange(16)
@@ -974,7 +974,7 @@ def explore(tier, seed, rng, wd):
     stats["pairs_rejected_by_au"] = len(rejected)
 
     # ---- values ---------------------------------------------------------------------------------
-    nvals = 18 if tier == "quick" else 40
+    nvals = 18 if tier == "quick" else 36
     for pr in compiling:
         a, b = pr["a"], pr["b"]
         pr["vals"] = gen_value_pairs(rng, a["rep"], (a["n"], a["d"]), b["rep"], (b["n"], b["d"]), nvals)
@@ -1027,6 +1027,7 @@ def explore(tier, seed, rng, wd):
         configs.append(others[seed % len(others)])
     else:
         configs += [others[(seed + i) % len(others)] for i in (0, 2, 3)]
+        configs.append(("g++", "c++14", "g14o1"))        # one optimised build (-O1) of a third of the pair instances
     files = write_value_harness(wd, types, compiling, 16 if tier == "quick" else 32)
     afiles = write_accept_harness(wd, types, cells_ok)
     byid = {t["id"]: t for t in types}
@@ -1035,10 +1036,10 @@ def explore(tier, seed, rng, wd):
     for ci, (compiler, std, tag) in enumerate(configs):
         cfg = f"{compiler} -std={std}"
         # in the quick tier the second configuration builds a third of the pair instances
-        use = compiling if (ci == 0 or tier != "quick") else compiling[ci::3]
+        use = compiling if (ci == 0 or (tier != "quick" and tag != "g14o1")) else compiling[ci % 3::3]
         fl = files if use is compiling else write_value_harness(os.path.join(wd), types, use, 16)
-        # quick tier: -O0 (the sanitizer-instrumented build is 3x faster); thorough: -O1 for the first configuration
-        opt = "-O1" if (tier != "quick" and ci == 0) else "-O0"
+        # -O0 (the sanitizer-instrumented build is 3x faster than -O1); thorough adds one -O1 build of a third of the pairs
+        opt = "-O1" if tag == "g14o1" else "-O0"
         exe, err = build(wd, fl, compiler, std, tag, opt=opt)
         lap("build_" + tag)
         if exe is None:
@@ -1088,7 +1089,7 @@ def explore(tier, seed, rng, wd):
             stats["sanitizer_reports"] = stats.get("sanitizer_reports", 0) + sum(e.count("runtime error") for e in errs)
             lap("compare_" + tag)
         # acceptance traits (no run-time arithmetic: built without sanitizers)
-        if ci == 0 or tier != "quick":
+        if ci == 0 or (tier != "quick" and tag != "g14o1"):
             aexe, err = build(wd, afiles, compiler, std, tag + "a", san=False)
             if aexe is None:
                 violations.append({"what": f"acceptance-trait table does not compile under {cfg}: a trait the model calls "
